@@ -14,7 +14,7 @@ Local Open Scope Z_scope.
    1. touched_in_view.  The view invariant: byteOffset, length >= 0, byteOffset aligned to the
    element size, byteOffset + length*size <= the memory of the buffer (same for DataViews). *)
 
-(* For BOTH readings, every state satisfying the invariant, every one of the 21 operations and every
+(* For BOTH readings, every state satisfying the invariant, every one of the 22 operations and every
    argument combination (incl. arguments whose valueOf detaches any buffer): each touched range is
    empty, or lies on a buffer that is NOT detached at the moment of the access and inside a region the
    operation is entitled to — the view(s)/DataView it was called on, the receiver buffer of
